@@ -37,6 +37,7 @@ class Sim:
         self.hook = make_hook(prog, self.extra)
         self.ev = Evaluator(prog, prog.modules["rtcsctptransport"], None, {}, self.hook)
         self.state_log: Dict[int, List[str]] = {}
+        self.sent: List[Tuple[int, int, bytes, Dict[str, Any]]] = []
 
     # ------------------------------------------------------------ world
     def transport(self, name: str, is_server: bool) -> Any:
@@ -78,6 +79,8 @@ class Sim:
                 return None
         if name == "self._send" and getattr(me, "__cls__", None) is self.tcls:
             args = [ev.ev(a) for a in call.args]
+            kwargs = {k.arg: ev.ev(k.value) for k in call.keywords}
+            self.sent.append((args[0], args[1], args[2], kwargs))
             self.tasks.append(("data", me.peer, args[0], args[1], args[2]))
             return None
         if name == "self._send_reconfig_param":
@@ -384,3 +387,49 @@ def run_life(rep: Report, prog: Program, tier: str) -> None:
             p.append(f"{events_of(ch, 'close')} close events after a repeated transition to closed")
         return p
     scenario("send() only while open; repeated transitions are silent", fn_send_guard)
+
+
+def run_policy(rep: Report, prog: Program, PROP_: str, RULE_: str) -> None:
+    """Each user message is handed to _send() with the reliability parameters of its own channel, whatever was flushed just before it."""
+    rep.rule(RULE_, "messages flushed together keep the reliability parameters of their own channels", min_instances=4)
+    flush = prog.func(T + "._data_channel_flush")
+    import itertools
+    kinds = {"reliable": dict(), "timed": dict(maxPacketLifeTime=300), "limited": dict(maxRetransmits=2), "unordered": dict(ordered=False)}
+    for first, second in itertools.permutations(kinds, 2):
+        sim = Sim(prog)
+        try:
+            a, b = sim.pair()
+            c1 = sim.create(a, label=first, **kinds[first])
+            c2 = sim.create(a, label=second, **kinds[second])
+            sim.pump()
+            sim.sent.clear()
+            sim.call(c1, "send", "one")
+            sim.call(c2, "send", "two")
+            sim.pump()
+        except Raised as ex:
+            rep.fail(mk_finding(prog, PROP_, RULE_, flush, getattr(ex, "node", None), f"[{first} then {second}] raises {ex.name}", construct=f"policy raises {ex.name}"))
+            continue
+        except Unknown as ex:
+            raise AnalysisError(f"{RULE_} cannot evaluate [{first} then {second}]: {ex}")
+        problems = []
+        user = [x for x in sim.sent if x[2] in (b"one", b"two")]
+        if len(user) != 2:
+            problems.append(f"{len(user)} user messages were handed to _send()")
+        for (sid, _pp, data, kw), ch, kind in zip(user, (c1, c2), (first, second)):
+            want_exp = kind == "timed"
+            want_rtx = 2 if kind == "limited" else None
+            want_ord = kind != "unordered"
+            if sid != sim.get(ch, "id"):
+                problems.append(f"message {data!r} sent on stream {sid}, its channel has id {sim.get(ch, 'id')}")
+            if (kw.get("expiry") is not None) != want_exp:
+                problems.append(f"message of the {kind} channel is sent with expiry={kw.get('expiry')!r}")
+            if kw.get("max_retransmits") != want_rtx:
+                problems.append(f"message of the {kind} channel is sent with max_retransmits={kw.get('max_retransmits')!r}")
+            if kw.get("ordered", True) != want_ord:
+                problems.append(f"message of the {kind} channel is sent with ordered={kw.get('ordered')!r}")
+        label = f"{first} channel's message followed by {second} channel's message in one flush"
+        if problems:
+            rep.fail(mk_finding(prog, PROP_, RULE_, flush, flush.node, f"[{label}] " + "; ".join(problems[:2]) + ": a message inherits reliability limits that are not its channel's and can be "
+                                f"abandoned (or kept) wrongly", construct=f"policy: {first} then {second}"))
+        else:
+            rep.ok(RULE_, label, sample="stream id, expiry, max_retransmits and ordered are those of each message's own channel")
